@@ -115,7 +115,7 @@ class Convolve(LinearOperator):
         return Convolve(
             h=self.h * scalar,
             input_shape=self.input_shape,
-            input_dtype=result_type(self.input_dtype, type(scalar)),
+            input_dtype=result_type(self.input_dtype, scalar),
             mode=self.mode,
             output_shape=self.output_shape,
         )
@@ -125,7 +125,7 @@ class Convolve(LinearOperator):
         return Convolve(
             h=self.h / scalar,
             input_shape=self.input_shape,
-            input_dtype=result_type(self.input_dtype, type(scalar)),
+            input_dtype=result_type(self.input_dtype, scalar),
             mode=self.mode,
             output_shape=self.output_shape,
         )
@@ -230,7 +230,7 @@ class ConvolveByX(LinearOperator):
         return ConvolveByX(
             x=self.x * scalar,
             input_shape=self.input_shape,
-            input_dtype=result_type(self.input_dtype, type(scalar)),
+            input_dtype=result_type(self.input_dtype, scalar),
             mode=self.mode,
             output_shape=self.output_shape,
         )
@@ -240,7 +240,7 @@ class ConvolveByX(LinearOperator):
         return ConvolveByX(
             x=self.x / scalar,
             input_shape=self.input_shape,
-            input_dtype=result_type(self.input_dtype, type(scalar)),
+            input_dtype=result_type(self.input_dtype, scalar),
             mode=self.mode,
             output_shape=self.output_shape,
         )
